@@ -1,9 +1,9 @@
 (* C07 - compilation never crashes or hangs (partial: the part that is logic).  Statements only. *)
 From Coq Require Import String.
-From Sakura.Model Require Import Base Cursor Length Event Writer Token LexCore.
+From Sakura.Model Require Import Base Cursor Length Event Writer Song Token LexCore RunCore Compile.
 From Sakura.Gen Require Import Consts VarRows.
 From Sakura.Spec Require Import TrackSpec.
-From Sakura.Proofs Require Import WriterP NumeralP TermP.
+From Sakura.Proofs Require Import WriterP NumeralP TermP NoPanicP.
 From Coq Require Import Lia.
 Open Scope Z_scope.
 
@@ -97,6 +97,28 @@ Example C07_lex_premise_example :
   exists toks ls', lex (mkLex 96 [] init_vars rhythm_rows) src 0 = Ok (toks, ls') /\ (length toks > 10)%nat.
 Proof. exact (conj example_safe example_lexes). Qed.
 
+(* ---- the whole pipeline model (model/Compile.v: lex -> exec_f -> flush ties / play_from -> generate) never answers Panic,
+        for EVERY source, with no premise: the lexer and the runner have no panic site (every arm answers Ok / Unsupported /
+        OutOfFuel or passes on the outcome of a reader / a nested lex / a nested exec), and the writer's only site (a
+        data-carrying event without data) is never reached from a source ---- *)
+Theorem C07_compile_never_panics : forall (src : list Z) (site : Z), compile src <> Panic site.
+Proof. exact compile_never_panics. Qed.
+Theorem C07_lex_never_panics : forall (ls : lexstate) (src : list Z) (ln : Z) (site : Z), lex ls src ln <> Panic site.
+Proof. intros ls src ln. exact (proj1 (np_not_panic _) (lex_np ls src ln)). Qed.
+Theorem C07_exec_never_panics : forall (depth steps : nat) (toks : list tok) (s : song) (site : Z),
+  exec_f depth steps toks (Ok s) <> Panic site.
+Proof. intros depth steps toks s. exact (proj1 (np_not_panic _) (exec_f_np steps depth toks (Ok s) I)). Qed.
+(* what compile can answer: bytes and a log; Unsupported / OutOfFuel exactly when the lexer or the runner answers so - the
+   writer never fails on a song reached from a source *)
+Theorem C07_compile_outcomes : forall src : list Z,
+  match compile src with
+  | Ok _ => exists s, run_source src = Ok s
+  | Unsupported w => run_source src = Unsupported w
+  | OutOfFuel => run_source src = OutOfFuel
+  | Panic _ => False
+  end.
+Proof. exact compile_outcomes. Qed.
+
 Print Assumptions C07_numerals_bounded.
 Print Assumptions C07_hex_numerals_bounded.
 Print Assumptions C07_saturation_is_cap.
@@ -110,3 +132,7 @@ Print Assumptions C07_lex_keeps_rhythm_table.
 Print Assumptions C07_reader_suffix.
 Print Assumptions C07_lex_terminates_refuted.
 Print Assumptions C07_lex_rhythm_recursion_diverges.
+Print Assumptions C07_compile_never_panics.
+Print Assumptions C07_lex_never_panics.
+Print Assumptions C07_exec_never_panics.
+Print Assumptions C07_compile_outcomes.
